@@ -235,6 +235,71 @@ pub fn run(ctx: &mut Ctx) {
         }
     }
 
+    // ---- ontologies built by the binary decoder and the text loader (names incl. the empty one, every record order)
+    {
+        let family = crate::props::common::format_family(4, if thorough { 1 } else { 8 });
+        ctx.space("terms/decoded-ontologies", &format!("{} small fact sets (names \"\", x, é, a: b; flags; records) decoded from binary v1/v2/v3 in every term-record order and from hp.obo in every stanza order: hpo(id) for 0..1200, the border keys and every added id; iteration; len", family.len()));
+        for (f, what) in &family {
+            if !ctx.take() {
+                continue;
+            }
+            ctx.state();
+            if f.terms.iter().any(|t| t.name.is_empty()) {
+                ctx.nontrivial();
+            }
+            let added: BTreeMap<u32, String> = f.terms.iter().map(|t| (t.id, t.name.clone())).collect();
+            let n = f.terms.len();
+            let mut keys: Vec<u32> = (0..1200).collect();
+            keys.extend(borders.iter().copied());
+            keys.extend(added.keys().copied());
+            for p in permutations(n) {
+                let g = Facts { terms: crate::space::apply_perm(&f.terms, &p), ..f.clone() };
+                for version in [3u8, 2, 1] {
+                    if version < 3 && !(p.windows(2).all(|w| w[0] < w[1]) || p.windows(2).all(|w| w[0] > w[1])) {
+                        continue;
+                    }
+                    let pf = crate::encode::project(&g, version);
+                    let bytes = crate::encode::encode(&pf, &crate::encode::EncOpts::v(version));
+                    ctx.transitions(pf.n_steps() + keys.len() as u64);
+                    ctx.exec();
+                    ctx.validated();
+                    match drive::from_bytes(&bytes) {
+                        Ok(Ok(ont)) => match guard(|| check_keys(&ont, &added, keys.iter().copied()).or_else(|| check_iteration(&ont, &added))) {
+                            Ok(None) => {}
+                            Ok(Some((site, sig, det))) => ctx.violation(&site, &format!("[decoded from binary v{version}] {sig}"), json!({"family": what, "facts": pf.to_json(), "term_record_order": p, "difference": det})),
+                            Err(pn) => ctx.violation("Ontology::hpo", "panics", json!({"family": what, "facts": pf.to_json(), "observed": pn})),
+                        },
+                        other => ctx.violation("Ontology::from_bytes", "rejects a file laid out as documented", json!({"family": what, "facts": pf.to_json(), "observed": format!("{:?}", other.map(|r| r.map(|_| ())))})),
+                    }
+                }
+                // text path (no empty names there)
+                if p.windows(2).all(|w| w[0] < w[1]) || p.windows(2).all(|w| w[0] > w[1]) || p[n - 1] == 0 {
+                    let mut tf = g.clone();
+                    tf.anns.retain(|a| a.term.is_some());
+                    for t in tf.terms.iter_mut() {
+                        if t.name.is_empty() {
+                            t.name = "n".into();
+                        }
+                    }
+                    let tadded: BTreeMap<u32, String> = tf.terms.iter().map(|t| (t.id, t.name.clone())).collect();
+                    ctx.transitions(tf.n_steps() + keys.len() as u64);
+                    ctx.exec();
+                    ctx.validated();
+                    match crate::jax::load(&crate::jax::render(&tf, &crate::jax::JaxOpts::default()), false) {
+                        Ok(Ok(ont)) => match guard(|| check_keys(&ont, &tadded, keys.iter().copied()).or_else(|| check_iteration(&ont, &tadded))) {
+                            Ok(None) => {}
+                            Ok(Some((site, sig, det))) => ctx.violation(&site, &format!("[loaded from hp.obo] {sig}"), json!({"family": what, "facts": tf.to_json(), "stanza_order": p, "difference": det})),
+                            Err(pn) => ctx.violation("Ontology::hpo", "panics", json!({"family": what, "facts": tf.to_json(), "observed": pn})),
+                        },
+                        other => ctx.violation("Ontology::from_standard", "rejects valid JAX files", json!({"family": what, "facts": tf.to_json(), "observed": format!("{:?}", other.map(|r| r.map(|_| ())))})),
+                    }
+                }
+            }
+            ctx.sample(|| json!({"family": what, "facts": f.to_json(), "term_record_orders": permutations(n).len()}));
+        }
+        crate::jax::cleanup();
+    }
+
     // ---- records: lookups by id, symbol, name substring
     let rec_ids: [u32; 4] = [0, 1, 77, u32::MAX];
     let symbols: [&str; 5] = ["", "A", "a", "AB", "\u{e9}"];
